@@ -45,6 +45,9 @@ def matrix():
     # two listeners: the request in flight is on one of them, the other is idle
     for kind, phase, which in itertools.product(KINDS, ["app-running", "response-partial", "head-partial"], [0, 1]):
         yield {"kind": kind, "phase": phase, "app": "finish", "sig": "TERM", "bind": "unix", "two_binds": which}
+    # the request being read when the signal arrives is the second one on a kept-alive connection (async workers' keep-alive loop)
+    for kind, bind in itertools.product(["gevent", "eventlet"], BINDS):
+        yield {"kind": kind, "phase": "keepalive-head-partial", "app": "finish", "sig": "TERM", "bind": bind}
     # non-default listener set-up: SO_REUSEPORT
     for kind, sig in itertools.product(KINDS, SIGS):
         yield {"kind": kind, "phase": "app-running" if sig == "TERM" else "idle", "app": "finish", "sig": sig, "bind": "tcp", "reuse_port": True}
@@ -70,6 +73,7 @@ def extra_cases(tier, seed, shard, nshards):
         seen = set()
         for c in cells:
             k = (c["kind"], c["phase"], "TERM" if c["sig"] == "TERM" else "quick", c.get("prelude"), c.get("two_binds") is not None, c["bind"] if c.get("two_binds") is not None else None, bool(c.get("reuse_port")))
+            k = k + (c["bind"],) if c["phase"] == "keepalive-head-partial" else k
             if k not in seen or (c["app"] == "finish" and c["sig"] == "TERM" and (c["kind"], c["phase"], "f") not in seen):
                 seen.add(k)
                 if c["app"] == "finish" and c["sig"] == "TERM":
@@ -225,10 +229,10 @@ def run_case(case):
             if not srv.wait_ready(10):
                 return Outcome([], False, classes + ["inconclusive:not-ready-after-hup"], sample={"case": case})
             classes.append("prelude:hup")
-        in_flight = phase in ("head-partial", "app-running", "response-partial") or case.get("prelude") == "retire-busy"
+        in_flight = phase in ("head-partial", "app-running", "response-partial", "keepalive-head-partial") or case.get("prelude") == "retire-busy"
         c = None
         got_first = b""
-        expect_response = sig == "TERM" and app == "finish" and phase in ("head-partial", "app-running", "response-partial")
+        expect_response = sig == "TERM" and app == "finish" and phase in ("head-partial", "app-running", "response-partial", "keepalive-head-partial")
         # ---------------- bring the connection into the phase
         if phase == "idle":
             c = srv.connect()
@@ -258,7 +262,7 @@ def run_case(case):
                 got_first += d
             if b"first-chunk" not in got_first or not srv.started("s1"):
                 return Outcome([], False, classes + ["inconclusive:no-first-chunk"], sample={"case": case})
-        elif phase == "keepalive-idle":
+        elif phase in ("keepalive-idle", "keepalive-head-partial"):
             c = srv.connect()
             c.sendall(b"GET /pid HTTP/1.1\r\nHost: x\r\n\r\n")
             buf = b""
@@ -279,6 +283,10 @@ def run_case(case):
                 return Outcome([], False, classes + ["inconclusive:no-keepalive-response"], sample={"case": case})
             if kind == "sync":
                 classes.append("sync-has-no-keepalive")
+            if phase == "keepalive-head-partial":
+                req = b"GET /slow/0.3 HTTP/1.1\r\nHost: x\r\nConnection: close\r\n\r\n"
+                c.sendall(req[:len(req) // 2])
+                time.sleep(0.4)
         time.sleep(case.get("jitter", 0.1))
         # ---------------- the signal
         t_sig = time.time()
@@ -288,7 +296,7 @@ def run_case(case):
         err = None
         if phase == "idle":
             time.sleep(0.3)
-        elif phase == "head-partial":
+        elif phase in ("head-partial", "keepalive-head-partial"):
             time.sleep(1.6)          # async workers close their listener up to 1 s after TERM
             try:
                 c.sendall(req[len(req) // 2:])
